@@ -267,7 +267,7 @@ with a non-UTF-8 name and a temporary file, and the scan of it succeeds with one
 file counted. -/
 example : Hyp (exCfg decAB) exTree ∧ isOk (scanCold (exCfg decAB) (some exTree)) = true ∧
     filesOf (scanCold (exCfg decAB) (some exTree)) = 1 := by
-  refine ⟨⟨?_, ?_, ?_⟩, by decide, by decide⟩
+  refine ⟨⟨?_, ?_, ?_⟩, by decide +kernel, by decide +kernel⟩
   · intro c; simp [exCfg]
   · intro p t t' h
     simp only [exCfg] at h
@@ -291,6 +291,6 @@ but the content holds one: the hypothesis of `scan_counts` cannot be dropped.
 (In the Go code: `contents[name] = entry` overwrites, `s.files++` ran twice.) -/
 theorem counts_need_distinct_names :
     filesOf (scanCold (exCfg decCollapse) (some exTwoFiles)) = 2 ∧
-    contentFilesOf (scanCold (exCfg decCollapse) (some exTwoFiles)) = 1 := by decide
+    contentFilesOf (scanCold (exCfg decCollapse) (some exTwoFiles)) = 1 := by decide +kernel
 
 end Mutagen.Properties.C12
